@@ -80,18 +80,18 @@ C07_DriversEnd == (IsObs /\ Cur.kind = "final") => Cur.spawned = Cur.finished
 
 -----------------------------------------------------------------------------
 (* C09: one misbehaving connection never takes the server down *)
-EndActs == {"Signal", "ListenerLost", "MakeFail"}
-Global  == EndActs \cup {"MakeOpen", "Probe"}
+Global  == {"Signal", "ListenerLost", "MakeFail", "MakeOpen", "Probe"}
 
-\* the serving future changes state only in a step that contains the signal, the loss of the listener
-\* itself, or a make-service failure
-C09_SrvStable == (IsObs /\ Cur.srv # PSrv) => (Acts \cap EndActs # {})
-\* ... and with the matching result
-C09_EndsOnlyOnAllowed ==
-  IsObs => /\ (Cur.srv = "ok" => Cur.sigFired)
-           /\ (Cur.srv \notin {"running", "ok"} =>
-                 \/ (Cur.srv = "erraccept" /\ Cur.listenerLost)
-                 \/ (Cur.srv = "errmake" /\ Cur.makeFailed))
+\* the serving future leaves "running" only for an allowed cause that exists by then, with the matching
+\* result: Ok for the signal, an accept error for the loss of the listener itself, a make-service error
+\* for a make-service failure.  (The cause may be older than the step: a lost listener is only noticed
+\* at the next accept, which a pending make-service future delays.)
+AllowedEnd(o) == \/ (o.srv = "ok" /\ o.sigFired)
+                 \/ (o.srv = "erraccept" /\ o.listenerLost)
+                 \/ (o.srv = "errmake" /\ o.makeFailed)
+C09_SrvStable == (IsObs /\ Cur.srv # PSrv) => AllowedEnd(Cur)
+\* ... and stays explained in every later observation
+C09_EndsOnlyOnAllowed == (IsObs /\ Cur.srv # "running") => AllowedEnd(Cur)
 \* after every step, a fresh well-behaved client is accepted and fully served while the serving future
 \* is still pending (not asked for once the signal, listener loss or a make failure happened, nor while
 \* the harness's own make-service gate holds the accept loop)
